@@ -53,6 +53,10 @@ for _p in ("C07", "C08"):
     fixed("F41", _p, "a82e8d2", "C08.apply-source|source|new_resume", "a hot swap requested before the first dsp call (swap time 0) with a changed layout: the VM's state storage is still empty, apply_patches read past it and panicked (debug assertion; slice index in release); now migrates from all-zero state (findings/repro/F41_*/swap_at_zero.rs)")
     fixed("F41", _p, "a82e8d2", "C08.apply-source|source|try_hot_swap", "same defect in the WASM runtime's try_hot_swap (findings/repro/F41_*/swap_at_zero_wasm.rs)")
 fixed("F48", "C17", "f82c1b2", "C17.context|bracket|Let", "`mod m { fn hidden(){7.0}  let k = 1.0 }  let v = m::hidden()`: the resolver kept the module context of the module-level `let` while resolving everything after it, so the following global `let` passed the privacy check for m\'s private member (7.0 instead of `Member \"hidden\" in module \"m\" is private`; findings/repro/F48_*.mmm)")
+for _p in ("C01", "C03"):
+    fixed("F49", _p, "23440b0", "C01.unit-merge|unit-merge|emit_instruction|Phi.0", "`fn maybe(t){ if (t > 1.0) { bump() } }`: the bytecode generator looked the value of a unit-valued `if` up in the register table and panicked (`value none not found`); WASM compiled and ran the program (findings/repro/F49_*.mmm)")
+    fixed("F49", _p, "23440b0", "C01.unit-merge|unit-merge|emit_instruction|Phi.1", "same defect, else input of the Phi")
+    fixed("F50", _p, "a2c4d82", "C01.unit-merge|unit-merge|Switch-inputs|input", "`match t { 1 => bump(), _ => { x = x + 10.0 } }`: same panic in the Switch lowering for an arm without a value (findings/repro/F50_*.mmm)")
 fixed("F21", "C01", "52a554f", "C01.ops|truthiness|JmpIfNeg|F64Const+F64Gt", "`if` on a NaN condition took the then-branch on the VM (cond <= 0.0 test) and the else-branch on WASM (cond > 0.0)")
 
 # ---- C01 operator templates ---------------------------------------------------------------------------
